@@ -1,6 +1,7 @@
 """C01 end-to-end scenario programs (clause audit of the property text): exit paths (exit() deep in a call chain with
 instrumented atexit handlers, pthread_exit, death by signal), call depth beyond --max-stack, the floating-point environment
-(rounding mode, sticky exception flags), fork / vfork / exec / system, asynchronous signals with an instrumented handler.
+(rounding mode, sticky exception flags), fork / vfork / exec / system, asynchronous signals with an instrumented handler, traced code after the thread teardown (key destructors, thread_local
+destructors, signal handlers inside them), setjmp/longjmp/sigsetjmp/siglongjmp with re-armed buffers.
 Every program appends `DIGEST <tag> <hex>` lines to stdout and to the private file $VERIF_OUT."""
 
 COMMON = r'''#define _GNU_SOURCE
@@ -186,6 +187,57 @@ int main(void) {
   report_to("main"); return 12;
 }
 ''',
+    # ---- setjmp / longjmp (setjmp@plt is hooked; libmcount snapshots the shadow stack per jmp_buf and re-installs it when
+    # longjmp lands): ONE jmp_buf re-armed at deeper / same / shallower call depth, several longjmps to one arming,
+    # longjmp across 1..4 frames, two buffers nested, arming in main itself
+    "jmp": r'''#include <setjmp.h>
+static jmp_buf env, env2;
+NOINL long leaf(long x) { mix(x); return x * 3 + 1; }
+NOINL void thrower(jmp_buf *e, int depth, int val) { mix(depth); if (depth == 0) longjmp(*e, val); thrower(e, depth - 1, val); mix(999); }
+NOINL long arm_at(int depth, int across, int val) {
+  if (depth > 0) { long r = arm_at(depth - 1, across, val); return r + leaf(depth); }
+  { volatile long acc = 0; int r = setjmp(env);
+    if (r == 0) { acc += leaf(1); thrower(&env, across, val); }
+    acc += r * 10; mix(acc); return acc + leaf(2); }
+}
+NOINL long multi(int n) { volatile int cnt = 0; volatile long acc = 0; int r = setjmp(env); acc += r;
+  if (cnt < n) { cnt++; thrower(&env, cnt % 4 + 1, cnt + 1); } mix(acc); return acc + leaf(cnt); }
+NOINL long inner(int across) { volatile long a = 1; int r = setjmp(env); if (r == 0) { a += leaf(4); thrower(&env2, across, 21); } return a + r; }
+NOINL long mid(int d, int across) { if (d > 0) return mid(d - 1, across) + 1; return inner(across) + leaf(5); }
+NOINL long outer(int d, int across) { volatile long a = 2; int r = setjmp(env2); if (r == 0) a += mid(d, across); else a += r * 3; mix(a); return a + leaf(6); }
+int main(void) {
+  int i;
+  mix(arm_at(4, 2, 5)); mix(arm_at(4, 1, 6)); mix(arm_at(6, 3, 7)); mix(arm_at(0, 4, 8)); mix(arm_at(2, 1, 9)); mix(arm_at(1, 2, 3));
+  mix(multi(5)); mix(outer(3, 2)); mix(arm_at(0, 1, 4)); mix(outer(0, 4)); mix(multi(2));
+  for (i = 0; i < 4; i++) { volatile long a = 0; int r = setjmp(env); if (r == 0) { a = leaf(3 + i); thrower(&env, i + 1, 40 + i); } mix(a + r); }
+  mix(arm_at(5, 4, 2)); mix(arm_at(0, 2, 1));
+  report_to("main"); return 100 + (int)(dg % 7);
+}
+''',
+    # sigsetjmp / siglongjmp out of an (instrumented) signal handler, the signal mask restored; the buffer re-armed at other depths
+    "sigjmp": r'''#include <setjmp.h>
+#include <signal.h>
+static sigjmp_buf senv;
+NOINL long hleaf(long x) { return x * 5 + 1; }
+NOINL static void handler(int sig) { mix(hleaf(sig)); siglongjmp(senv, sig); }
+NOINL long leaf(long x) { mix(x); return x * 3 + 1; }
+NOINL void sink(int depth) { mix(depth); if (depth == 0) { raise(SIGUSR1); mix(12345); } sink(depth - 1); mix(777); }
+NOINL long arm_at(int depth, int across, int savemask) {
+  if (depth > 0) return arm_at(depth - 1, across, savemask) + leaf(depth);
+  { volatile long acc = 0; sigset_t cur; int r = sigsetjmp(senv, savemask);
+    if (r == 0) { acc += leaf(1); sink(across); }
+    sigprocmask(SIG_BLOCK, NULL, &cur); acc += r + 100 * sigismember(&cur, SIGUSR1); mix(acc);
+    if (!savemask) { sigemptyset(&cur); sigaddset(&cur, SIGUSR1); sigprocmask(SIG_UNBLOCK, &cur, NULL); }
+    return acc + leaf(2); }
+}
+int main(void) {
+  int i;
+  signal(SIGUSR1, handler);
+  mix(arm_at(3, 2, 1)); mix(arm_at(3, 1, 1)); mix(arm_at(5, 3, 1)); mix(arm_at(0, 4, 1)); mix(arm_at(1, 1, 0)); mix(arm_at(0, 2, 0));
+  for (i = 0; i < 3; i++) { volatile long a = 0; int r = sigsetjmp(senv, 1); if (r == 0) { a = leaf(i); sink(i + 1); } mix(a + r); }
+  report_to("main"); return 90 + (int)(dg % 9);
+}
+''',
 }
 
 
@@ -206,5 +258,7 @@ PLAN = {
     "tsd": ["plain", "nest-libcall", "estimate-return", "max-stack", "script", "args", "small-buffer", "time"],
     "tsdsig": ["plain", "nest-libcall", "estimate-return", "small-buffer", "depth"],
     "tlsdtor": ["plain", "nest-libcall", "estimate-return", "script", "no-libcall"],
+    "jmp": ["plain", "nest-libcall", "estimate-return", "max-stack", "script", "depth", "time", "args"],
+    "sigjmp": ["plain", "nest-libcall", "estimate-return", "script", "depth", "small-buffer"],
 }
 
